@@ -362,6 +362,12 @@ func (c *Ctx) runLoopInv(fr *frame, l *loopInfo, lc *LoopContract, entry *State)
 	if be == nil {
 		return
 	}
+	for _, cut := range lc.Cuts {
+		// an intermediate assertion at the end of the body (assert, then
+		// use): it may mention the locals of the body
+		cond := c.evalClause(mkEnv(be), cut)
+		c.oblige(be, "inv-cut("+tag+")", cut.Text, l.pos, cond)
+	}
 	for _, inv := range lc.Invariants {
 		cond := c.evalClause(mkEnv(be), inv)
 		c.oblige(be, "inv-preserved("+tag+")", inv.Text, l.pos, cond)
@@ -710,7 +716,7 @@ func (c *Ctx) applyContract(st *State, fc *FuncContract, fn *ssa.Function, args 
 func (c *Ctx) evalCalleeClause(e *Env, cl *Clause) (t *Term, ok bool) {
 	defer func() {
 		if r := recover(); r != nil {
-			if er, isErr := r.(error); isErr && strings.Contains(er.Error(), "unknown identifier") {
+			if er, isErr := r.(error); isErr && (strings.Contains(er.Error(), "unknown identifier") || strings.Contains(er.Error(), "unknown function")) {
 				t, ok = nil, false
 				return
 			}
@@ -1121,6 +1127,10 @@ func (w *World) verifyFunctionMode(fc *FuncContract, splitVal *uint64, tag strin
 	res.NRequires = len(c.assumes)
 	res.HasReq = len(fc.Requires) > 0
 	entry := st.clone()
+	if len(fc.GhostSums) > 0 {
+		c.ghostFC = fc
+		c.ghostEnv = c.contractEnv(fn, entry, args)
+	}
 	c.stack = []*ssa.Function{fn}
 	fi := w.fnInfo(fn)
 	fr := &frame{fn: fn, fi: fi, pending: map[*ssa.BasicBlock][]edgeState{}, fc: fc, entry: entry, entryVars: env.vars}
